@@ -329,6 +329,36 @@ def main(ck: Check):
                           "armor": armor, "h1": h1, "h2": h2, "a": a, "b": b_, "damage": d1,
                           "values": [vals[0], vals[3], vals[4]]})
 
+            # (d) one calculator answering a sequence of logs with different buffs: every answer equals that of a
+            #     fresh calculator (no dependence on earlier logs), and raising a beneficial buff field never lowers it
+            mk_calc = lambda: DamageCalculator(character_spec=S, damage_logic=logic, armor=armor,
+                                               level_advantage=calc.level_advantage, force_advantage=calc.force_advantage)
+            shared = mk_calc()
+            fields = [f for f in ben if f != "ignored_defence"]
+            rng.shuffle(fields)
+            val0 = float(rng.choice([10, 20, 40, 12.5]))
+            seq_buffs = []
+            for f in fields[:3]:
+                seq_buffs += [Stat(**{f: val0}), Stat(**{f: val0 + 5})]
+            seq_buffs += [Stat(), Stat(**{fields[0]: val0, fields[1]: val0}), Stat(**{fields[1]: val0, fields[0]: val0 + 5})]
+            prev = {}
+            for bi, buff in enumerate(seq_buffs):
+                log = DamageLog(name="x", damage=float(d1), hit=float(h1), buff=buff, tag=tag)
+                got, want = real(shared.get_damage, log), real(mk_calc().get_damage, log)
+                cls_counts["sequence_logs"] = cls_counts.get("sequence_logs", 0) + 1
+                checked += 1
+                if isinstance(got, str) or isinstance(want, str) or not close(got, want):
+                    fail({"claim": "get_damage of a log does not depend on the logs the calculator answered before",
+                          "logic": kind, "tag": tag, "stat": S.short_dict(), "armor": armor,
+                          "buffs_before": [b.short_dict() for b in seq_buffs[:bi]], "buff": buff.short_dict(),
+                          "reused_calculator": got, "fresh_calculator": want})
+                    break
+                key = tuple(sorted(k for k in buff.short_dict()))
+                if len(key) == 1 and key in prev and not le_tol(prev[key], got):
+                    fail({"claim": "raising a beneficial buff field never lowers get_damage", "logic": kind, "tag": tag,
+                          "stat": S.short_dict(), "armor": armor, "buff": buff.short_dict(), "before": prev[key], "after": got})
+                prev[key] = got
+
     # ---- D2 cooldown: bounds, floors, antitone in flat and in rate (grid neighbours + random ordered pairs)
     def cd_claims(o, f, r):
         v = cooldown(o, f, r)
